@@ -182,6 +182,8 @@ pub fn str_to_owned(s: &str) -> (r: String) ensures string_bytes(&r) == str_byte
 pub uninterp spec fn is_utf8(b: Seq<u8>) -> bool;
 pub uninterp spec fn str_bytes(s: &str) -> Seq<u8>;
 
+// length of the longest valid UTF-8 prefix cut at the first invalid sequence (what Utf8Error::valid_up_to reports)
+pub uninterp spec fn utf8_up_to(b: Seq<u8>) -> int;
 pub struct VUtf8Error { pub up_to: usize }
 impl VUtf8Error {
     pub fn valid_up_to(&self) -> (r: usize) ensures r == self.up_to { self.up_to }
@@ -222,7 +224,7 @@ pub fn str_from_utf8(bytes: &[u8]) -> (r: Result<&str, VUtf8Error>)
     ensures
         match r {
             Ok(s) => is_utf8(bytes@) && str_bytes(s) == bytes@ && (bytes@.len() == 0 ==> s@ == Seq::<char>::empty()) && (bytes@.len() > 0 ==> s@.len() > 0),
-            Err(e) => !is_utf8(bytes@) && e.up_to < bytes@.len() && is_utf8(bytes@.subrange(0, e.up_to as int)),
+            Err(e) => !is_utf8(bytes@) && e.up_to < bytes@.len() && is_utf8(bytes@.subrange(0, e.up_to as int)) && e.up_to == utf8_up_to(bytes@),
         },
 { unimplemented!() }
 
